@@ -202,7 +202,7 @@ class C11(Prop):
         now = local_instant(z, y, m, d, hh, {0: 0, 12: 30, 23: 59}[hh], 17 if hh else 1)
         rules = zone_rules(z, now)
         evs = []
-        with host_zone(z), frozen(float(now) + 0.25):
+        with host_zone(z), frozen(float(now - now % 60) + [0.25, 59.75, 29.5, 59.5, 0.0][scn["seed"] % 5]):
             texts = [f"{mn // 60:02d}:{mn % 60:02d}" for mn in range(1440)] + MALFORMED + LENIENT
             seen = []
             for t in texts:
